@@ -85,6 +85,17 @@ def step (_ : Unit) (ts : List String) : Unit × String :=
           if rs.2.fault || rc.2.fault then "FAULT" else s!"connect=1 s={showList rs.1} c={showList rc.1}"
         | _, _ => "FAULT"
       | _, _ => "bad-op"
+    -- fragments too long for a byte list: lengths only, by the two limits the model uses (`recvMaxLen`, `recvMaxMsg`)
+    | ["bigsum", l, n] => match l.toNat?, n.toNat? with
+      | some len, some nfrag =>
+        if len = 0 || len > Gen.Ws.recvMaxLen || nfrag < 1 || nfrag > 8 then "bad-op"
+        else
+          -- fragments are accepted while the sum stays within recvMaxMsg; the first one that does not closes
+          let k := (List.range nfrag).foldl (fun acc _ => if acc.2 then acc else
+                      if (acc.1 + 1) * len > Gen.Ws.recvMaxMsg then (acc.1, true) else (acc.1 + 1, false)) (0, false)
+          if k.2 then s!"lens={k.1 * len} closed=1"          -- the fragments received so far are returned, closed
+          else s!"lens={nfrag * len} closed=1"
+      | _, _ => "bad-op"
     | _ => "bad-op"
   ((), r)
 
